@@ -47,8 +47,10 @@ def winit():
     _W['dbs'] = {
         'A': [qx.mk(o) for o in qx.dbs_A(small=QUICK[0])],
         'B': [qx.mk(o) for o in qx.dbs_B()],
+        'C': [qx.mk(o) for o in qx.dbs_C()],
     }
-    _W['schema'] = {'A': qx.schema('A'), 'B': qx.schema('B')}
+    _W['schema'] = {'A': qx.schema('A'), 'B': qx.schema('B'),
+                    'C': qx.schema('C')}
     _install_inheritance(S['T'])
 
 
@@ -62,7 +64,7 @@ SUBTYPES = {}
 def _install_inheritance(T):
     from edb.schema import objtypes as s_objtypes
     SUBTYPES.clear()
-    for which in ('A', 'B'):
+    for which in ('A', 'B', 'C'):
         sch = _W['schema'][which]
         for t in sch.get_objects(type=s_objtypes.ObjectType,
                                  exclude_stdlib=True):
@@ -224,7 +226,7 @@ def run(ctx):
     qx.setup()
     tasks = []
     nq = {}
-    for which in ('A', 'B'):
+    for which in ('A', 'B', 'C'):
         qs = qx.queries(which, ctx.quick)
         nq[which] = len(qs)
         k = ctx.seed % len(qs)
@@ -243,7 +245,8 @@ def run(ctx):
                 f'{kind}: schema {which}: `{q}` inferred {label} but '
                 f'evaluates to {n} element(s) on database instance #{di}',
                 dict(which=which, q=q, db=di))
-    ndb = {'A': len(qx.dbs_A(small=ctx.quick)), 'B': len(qx.dbs_B())}
+    ndb = {'A': len(qx.dbs_A(small=ctx.quick)), 'B': len(qx.dbs_B()),
+           'C': len(qx.dbs_C())}
     ctx.sample(dict(schema='A', query='select User filter .name = "a"',
                     inferred='AT_MOST_ONE', instances=ndb['A']))
     ctx.cov.update(
